@@ -4,7 +4,8 @@
 (*   H, W, img (0/1 target mask), xs, ys, metric, tab, bound2, maxn  -- the call            *)
 (*   events : one record per _process_proximity_line call (interpreted mode), may be <<>>  *)
 (*   prox   : observed proximity, squared, in the units of DD (-1 = NaN, -2 = not a lattice value) *)
-(*   alloc  : observed allocation as row-major id of the named cell (-1 = NaN, -2 = not a cell)    *)
+(*   vcode  : the raster's values as integer codes (-1 = NaN)                                       *)
+(*   alloc  : observed allocation as a value code (-1 = NaN, -2 = not a value of the raster)        *)
 (*   dir    : observed direction in millidegrees (-1 = NaN)                                 *)
 (*   dirT   : float bridge: ids of the target cells whose bearing formula matches dir        *)
 (*   exact  : 1 when the exactness clause applies (scope proven exact by Proximity.tla, or single target) *)
@@ -78,8 +79,16 @@ QuadrantOK(r, c, a) ==
        [] dx < 0 /\ dy > 0 -> d > 180000 /\ d < 270000 /\ (-dx = dy => near(225000))
        [] dx < 0 /\ dy < 0 -> d > 270000 /\ d < 360000 /\ (dx = dy => near(315000))
 
+VCode(p) == Tr.vcode[p[1]+1][p[2]+1]
+Id(p) == p[1] * Tr.W + p[2]
+
 CellClause(r, c) ==
-  LET o == Out(r, c)  a == Alloc(r, c)  tn == TrueNearest(E, r, c) IN
+  LET o == Out(r, c)  a == Alloc(r, c)  tn == TrueNearest(E, r, c)
+      \* targets carrying the allocated value / those of them lying at the reported distance
+      named == {t \in Targets(E) : VCode(t) = a}
+      cand == {t \in named : DD(E, r, c, t[1], t[2]) = o}
+      dcand == {t \in cand : InSeq(Id(t), DirT(r, c))}
+  IN
   IF o = -2 THEN "bridge_prox_not_a_lattice_distance"
   ELSE IF (o = 0) # (E.img[r][c] = 1) THEN "P1_zero_iff_target"
   ELSE IF o = NONE THEN
@@ -87,14 +96,14 @@ CellClause(r, c) ==
         ELSE IF E.maxn = -1 /\ Targets(E) # {} THEN "P5_no_nan_when_unbounded"
         ELSE IF Tr.exact = 1 /\ Expected(E, r, c) # NONE THEN "P7_exact"
         ELSE "ok")
-  ELSE IF a < 0 \/ a >= Tr.H * Tr.W THEN "P2_allocation_names_no_cell"
-  ELSE IF E.img[AR(a)][AC(a)] # 1 THEN "P2_allocation_not_a_target"
-  ELSE IF DD(E, r, c, AR(a), AC(a)) # o THEN "P2_proximity_is_not_distance_to_allocated_target"
+  ELSE IF a < 0 THEN "P2_allocation_names_no_cell"
+  ELSE IF named = {} THEN "P2_allocation_not_a_target"
+  ELSE IF cand = {} THEN "P2_proximity_is_not_distance_to_allocated_target"
   ELSE IF o < tn THEN "P3_underestimate"
   ELSE IF ~WithinMax(E, o) THEN "P4_beyond_max_distance"
   ELSE IF Dir(r, c) = NONE THEN "P6_nan_in_all_three"
-  ELSE IF ~InSeq(a, DirT(r, c)) THEN "P2_direction_is_not_bearing_of_allocated_target"
-  ELSE IF ~QuadrantOK(r, c, a) THEN "P2_direction_quadrant"
+  ELSE IF dcand = {} THEN "P2_direction_is_not_bearing_of_allocated_target"
+  ELSE IF \A t \in dcand : ~QuadrantOK(r, c, Id(t)) THEN "P2_direction_quadrant"
   ELSE IF Tr.exact = 1 /\ o # Expected(E, r, c) THEN "P7_exact"
   ELSE "ok"
 
